@@ -4,7 +4,7 @@ Driver commands of the C16 model.
   attr.run  <env>  <layer>  <blocks>  <ops>
     env    : "ucs2"|"utf16" "," "0"|"1"           (unicode-string codec in force, legacy '?' fallback at write)
     layer  : "L|kind|top|left|bottom|right|blendhex|opacity|clipping|flags8|legacy|psd|pixhex"
-           | "G|name|open"                                  Group.new
+           | "G|name|open|pixhex"                                 Group.new
            | "P|name|top|left|w|h|psd|pixhex"               PixelLayer.frompil
     blocks : items "sighex:keyhex:T:payload" joined by ";"  ("_" = none; ignored for G/P)
              T = s (code points "a,b,c" or "_"), d ("kind,sig,blend,sub" with "_" for None),
@@ -127,9 +127,10 @@ def layerOf (E : Env) (spec blocks : String) : Option (Except Err Layer) :=
     let px ← hexOf px
     let bs ← blocksOf blocks
     pure (.ok ⟨k, t, l, b, r, bl, op, cl, fl, lg, bs, px, psd⟩)
-  | ["G", n, o] => do
+  | ["G", n, o, px] => do
     let n ← natsOf n
-    pure (.ok (groupNew n (o == "1")))
+    let px ← hexOf px
+    pure (.ok { groupNew n (o == "1") with pixels := px })
   | ["P", n, t, l, w, h, psd, px] => do
     let n ← natsOf n
     let t ← t.toInt?; let l ← l.toInt?; let w ← w.toInt?; let h ← h.toInt?
@@ -171,7 +172,7 @@ def dump (l : Layer) : String :=
     valStr (get .left l), valStr (get .top l), valStr (get .clipping l), valStr (get .locks l),
     (if l.kind.movable then intStr (rightOf l) else "d"), (if l.kind.movable then intStr (bottomOf l) else "d"),
     (if l.kind.movable then intStr (width l) else "d"), (if l.kind.movable then intStr (height l) else "d"),
-    natsStr l.legacyName, hexStr l.blend,
+    natsStr l.legacyName, hexStr l.blend, toString l.flags.toByte, toString l.clipping,
     toString l.top ++ "," ++ toString l.left ++ "," ++ toString l.bottom ++ "," ++ toString l.right,
     hexStr l.pixels,
     (if l.blocks.isEmpty then "_" else ";".intercalate (l.blocks.map blockStr))]
